@@ -91,6 +91,9 @@ def cmd_confirm(name, run_tests=True, extra_props=(), tier="quick", only_checks=
         props = [prop] + [p for p in extra_props if p != prop]
         res = run_checks(patched, props, tier)
         meta.setdefault("checks", {}).update({"%s:%s" % (p, tier): v for p, v in res.items()})
+        meta.setdefault("check_history", []).append({
+            "verif_commit": sh("git -C %s log --format=%%h -1" % ROOT).stdout.strip() + ("+uncommitted" if sh("git -C %s status --porcelain" % ROOT).stdout.strip() else ""),
+            "tier": tier, "results": {p: ("CAUGHT" if v["caught"] else "missed" if v["rc"] == 0 else "rc%d" % v["rc"]) for p, v in res.items()}})
         meta["ran"] = "tools/seeded.py confirm %s (scratch export of /repo HEAD %s; checks run with VERIF_REPO on the patched copy)" % (
             name, sh("git -C /repo log --format=%h -1").stdout.strip())
         with open(meta_path, "w") as f:
